@@ -101,6 +101,12 @@ func (x *expander) stmt(s *Stmt) []*Stmt {
 		n.Keys = x.exprs(s.Keys)
 	case "expire":
 		n.Keys = x.exprs(s.Keys)
+		if s.DurNs <= 0 {
+			// `del m[k] after d` with d <= 0 is a plain `del m[k]`: there is nothing
+			// to wait for (codegen.go: the duration is pushed and Expire emitted only
+			// for a positive Expiry, otherwise Del)
+			n.Op = "del"
+		}
 	case "set", "add":
 		n.Keys = x.exprs(s.Keys)
 		if s.Op == "add" && s.Ty != TInt {
@@ -390,6 +396,9 @@ func (s *Stmt) coq(sf bool) string {
 	case "del":
 		return app("SDel", n(s.M.Idx), exprsCoqS(s.Keys, sf))
 	case "expire":
+		if s.DurNs <= 0 {
+			return app("SDel", n(s.M.Idx), exprsCoqS(s.Keys, sf)) // see expander.stmt
+		}
 		return app("SExpire", n(s.M.Idx), exprsCoqS(s.Keys, sf), vlib.Z(s.DurNs))
 	case "stop":
 		return "SStop"
